@@ -81,7 +81,7 @@ func (w *Worker) bigCmp(a, b BigVal) *Term {
 	// Wide symbolic values (DH-sized): decide the order eagerly (three-way
 	// fork) with atoms in a canonical operand order, so that the result is a
 	// constant on each path and the mirrored comparison of the peer folds.
-	if wd >= 56 && a.T != nil && b.T != nil && w.noFork == 0 {
+	if wd >= 56 && a.T != nil && b.T != nil && w.noFork == 0 && !w.lazyCmp {
 		swap := x.id > y.id
 		if swap {
 			x, y = y, x
